@@ -68,3 +68,14 @@ mod test {
         assert_ne!(history.count_repetitions(10, 6), 3);
     }
 }
+
+/// Test-only public handle over the private history (verification hook)
+#[cfg(inkayaku_verif)]
+pub struct VerifHistory(Box<ZobristHistory>);
+
+#[cfg(inkayaku_verif)]
+impl VerifHistory {
+    pub fn new() -> Self { Self(Box::default()) }
+    pub fn set(&mut self, index: u16, zobrist_hash: ZobristHash) { self.0.set(index, zobrist_hash); }
+    pub fn count_repetitions(&self, start_index: u16, halfmove_clock: u16) -> usize { self.0.count_repetitions(start_index, halfmove_clock) }
+}
